@@ -83,6 +83,8 @@ func c20VerifyClass(err error) string {
 		return "rsa"
 	case errors.Is(err, learn.ErrSealedTooShort):
 		return "short"
+	case errors.Is(err, learn.ErrInvalidFrontmatter):
+		return "invalidfm"
 	}
 	return "other"
 }
@@ -557,9 +559,17 @@ func c20YAMLQuote(s string) string {
 }
 
 func c20Frontmatter(atype, answer, verification string) string {
+	return c20FrontmatterV(atype, answer, verification, verification != "")
+}
+
+func c20FrontmatterV(atype, answer, verification string, verifSet bool) string {
 	s := "---\ntype: question\ndifficulty: easy\nanswer-type: " + atype + "\nanswer: " + c20YAMLQuote(answer) + "\n"
-	if verification != "" {
-		s += "verification: " + verification + "\n"
+	if verifSet {
+		if verification == "match" || verification == "none" {
+			s += "verification: " + verification + "\n" // the plain spelling authors use
+		} else {
+			s += "verification: " + c20YAMLQuote(verification) + "\n"
+		}
 	}
 	return s + "---\n\n"
 }
@@ -842,24 +852,43 @@ func c20Letters(marks []int, rng *rand.Rand) string {
 }
 
 type c20Mode struct {
-	Name   string
-	Seal   bool
-	Key    string // none right wrong
-	Ignore bool
-	VNone  bool
+	Name     string
+	Seal     bool
+	Key      string // none right wrong
+	Ignore   bool
+	Verif    string // value of the verification field
+	VerifSet bool   // the field is written (false: absent = the default, match)
+}
+
+// the verification field as the model takes it
+func (m c20Mode) verifSX() SX {
+	if !m.VerifSet {
+		return Sym("absent")
+	}
+	return Str(m.Verif)
 }
 
 var c20Modes = []c20Mode{
-	{"plain", false, "none", false, false},
-	{"plain-with-key", false, "right", false, false},
-	{"sealed", true, "right", false, false},
-	{"sealed", true, "right", false, false},
-	{"sealed-wrong-key", true, "wrong", false, false},
-	{"sealed-no-key", true, "none", false, false},
-	{"sealed-ignored", true, "none", true, false},
-	{"verification-none", false, "none", false, true},
-	{"sealed-verification-none", true, "right", false, true},
+	{"plain", false, "none", false, "", false},
+	{"plain-with-key", false, "right", false, "", false},
+	{"sealed", true, "right", false, "", false},
+	{"sealed", true, "right", false, "", false},
+	{"sealed-wrong-key", true, "wrong", false, "", false},
+	{"sealed-no-key", true, "none", false, "", false},
+	{"sealed-ignored", true, "none", true, "", false},
+	{"verification-none", false, "none", false, "none", true},
+	{"sealed-verification-none", true, "right", false, "none", true},
+	{"sealed-explicit-match", true, "right", false, "match", true},
+	{"sealed-wrong-key-explicit-match", true, "wrong", false, "match", true},
+	{"sealed-ignored-explicit-match", true, "none", true, "match", true},
 }
+
+// every case run in the plain mode (verification absent) is also run with the
+// default spelled out
+var c20ExplicitMatch = c20Mode{"plain-explicit-match", false, "none", false, "match", true}
+
+// values that are not in validVerifications: the question must not load
+var c20InvalidVerifications = []string{"", "Match", "MATCH", " match", "match ", "exact", "nil", "true", "parse_error", "no-parse-errors", "match\n", "none,match", "matc"}
 
 type c20Env struct {
 	cfg   Config
@@ -894,12 +923,8 @@ func (e *c20Env) check(q c20Question, mode c20Mode, equal []bool) {
 	ki := e.seq % len(e.keys)
 	e.seq++
 	atypeFM := map[string]string{"single": "single-choice", "multi": "multiple-choice", "text": "text"}[q.AType]
-	verification := ""
-	if mode.VNone {
-		verification = "none"
-	}
-	content := c20Frontmatter(atypeFM, q.Answer, verification) + q.Body
-	input := map[string]any{"kind": "verify", "markdown": content, "mode": mode.Name, "seal": mode.Seal, "key": mode.Key, "ignore": mode.Ignore,
+	content := c20FrontmatterV(atypeFM, q.Answer, mode.Verif, mode.VerifSet) + q.Body
+	input := map[string]any{"kind": "verify", "markdown": content, "mode": mode.Name, "seal": mode.Seal, "key": mode.Key, "ignore": mode.Ignore, "verification": mode.verifSX().String(),
 		"public": e.keys[ki].KP.Public, "private": e.keys[ki].KP.Private, "wrong_private": e.keys[(ki+1)%len(e.keys)].KP.Private,
 		"marks": q.Marks, "equal": equal, "answer": q.Answer, "files": q.Extra}
 	implClass, outs, gen, herr := c20RunVerify(e.dir, fmt.Sprintf("q%d", e.seq), content, q.Answer, mode, e.keys[ki].KP, e.keys[(ki+1)%len(e.keys)].KP.Private, q.Extra)
@@ -934,8 +959,8 @@ func (e *c20Env) check(q c20Question, mode c20Mode, equal []bool) {
 		outsx[i] = Str(o)
 	}
 	ask := func(beforeFix bool) string {
-		a, err := e.model.Ask(Lst(Sym("verify"), Bool(beforeFix), Bool(mode.Ignore), Sym(mode.Key), Bool(mode.Seal), Bool(mode.VNone), Sym(q.AType), Str(q.Answer),
-			Bool(q.IsSrc), LstOf(outsx), Str(q.Gen), Str(q.RunOut)).String())
+		a, err := e.model.Ask(Lst(Sym("verify"), Bool(beforeFix), Bool(mode.Ignore), Sym(mode.Key), Bool(mode.Seal), mode.verifSX(), Sym(q.AType), Str(q.Answer),
+			Bool(q.IsSrc), LstOf(outsx), Str(q.Gen), Str(q.RunOut), LstOf(nil)).String())
 		if err != nil {
 			return "model-error:" + err.Error()
 		}
@@ -952,7 +977,14 @@ func (e *c20Env) check(q c20Question, mode c20Mode, equal []bool) {
 	// property oracle, evaluated on the implementation: for a question that is really
 	// verified (match verification, answer available), Verify accepts exactly when the
 	// marked choices are precisely the choices whose output equals the question's
-	verified := !mode.VNone && !mode.Ignore && !(mode.Seal && mode.Key != "right")
+	// match verification is in force when the field is absent or says "match"
+	verified := (!mode.VerifSet || mode.Verif == "match") && !mode.Ignore && !(mode.Seal && mode.Key != "right")
+	if mode.Name == "invalid-verification" && implClass != "invalidfm" {
+		r.Violate(Violation{Kind: "property", Key: "invalid-verification-not-rejected", Detail: fmt.Sprintf("a question whose verification field is %q (not a documented value) loads and verifies as %s", mode.Verif, implClass), Input: input, Impl: implClass, Model: mclass})
+	}
+	if mode.Name == "plain" {
+		defer e.check(q, c20ExplicitMatch, equal)
+	}
 	if q.AType != "text" && q.Valid && verified {
 		want := sameSet(q.Marks, equal)
 		switch {
@@ -1135,6 +1167,28 @@ func c20Verification(e *c20Env) {
 	}
 	c20ParseErrorQuestions(e, exhaustUpTo)
 
+	// verification values that are not documented: the question must be rejected when it is
+	// loaded, whatever the marks (right and wrong), the answer type and the content form
+	for _, v := range c20InvalidVerifications {
+		mode := c20Mode{"invalid-verification", false, "none", false, v, true}
+		for _, right := range []bool{true, false} {
+			equal := []bool{false, true, false}
+			marks := []int{1}
+			if !right {
+				marks = []int{0}
+			}
+			for style := 0; style < 4; style++ {
+				q := c20ChoiceQuestion(rng, "multi", c20Letters(marks, rng), 3, equal, style)
+				q.Marks, q.Valid = marks, true
+				e.check(q, mode, equal)
+				q = c20ChoiceQuestion(rng, "single", string(rune('a'+marks[0])), 3, equal, style)
+				q.Marks, q.Valid = marks, true
+				e.check(q, mode, equal)
+			}
+			e.check(c20TextQuestion(rng), mode, nil)
+		}
+	}
+
 	// malformed answers (the answer text does not denote marks)
 	bad := []string{"", "A", "ab", "a,,b", "a,", ",", "1", "a b", "\u00e9", "a;b", "a, B", "aa", " ", "{", "a, b", "a,\u200bb", "\u3000c ", "a,\u00a0b\u2003", "c\n"}
 	for i, ans := range bad {
@@ -1150,7 +1204,7 @@ func c20Verification(e *c20Env) {
 	// text answers
 	nText := cfg.N(300, 4000)
 	for i := 0; i < nText; i++ {
-		e.check(c20TextQuestion(rng), c20Modes[[]int{0, 0, 0, 2, 4, 5, 6, 7}[rng.Intn(8)]], nil)
+		e.check(c20TextQuestion(rng), c20Modes[[]int{0, 0, 0, 2, 4, 5, 6, 7, 9, 10, 11}[rng.Intn(11)]], nil)
 	}
 }
 
@@ -1208,7 +1262,8 @@ func c20ParseErrorQuestions(e *c20Env, exhaustUpTo int) {
 				r.Violate(Violation{Kind: "correspondence", Key: "harness-" + herr, Detail: "the generated parse-error question did not load as intended", Input: input})
 				continue
 			}
-			mclass, merr := e.model.Ask(Lst(Sym("verifyflags"), Bool(want), Sym(atype), Str(answer), LstOf(flagsx)).String())
+			mclass, merr := e.model.Ask(Lst(Sym("verify"), Bool(false), Bool(false), Sym("none"), Bool(false), Str(verification), Sym(atype), Str(answer),
+				Bool(false), LstOf(nil), Str(""), Str(""), LstOf(flagsx)).String())
 			r.Validated++
 			if merr != nil || mclass != class {
 				r.Violate(Violation{Kind: "correspondence", Key: "verify-model-differs:" + class + "-vs-" + mclass, Detail: "parse-error verification: QuestionModel.Verify and the model disagree", Input: input, Impl: class, Model: mclass})
@@ -1386,8 +1441,12 @@ func c20RepoQuestions(e *c20Env) {
 			if mt == "text" {
 				return nil // the answer block's kind and evy output are not observable from outside: only counted
 			}
-			ans, merr := e.model.Ask(Lst(Sym("verify"), Bool(false), Bool(false), Sym("none"), Bool(false), Bool(false), Sym(mt), Str(answer),
-				Bool(false), LstOf(outsx), Str(gen), Str("")).String())
+			verif := Sym("absent")
+			if strings.Contains(string(b), "\nverification:") {
+				verif = Str("match") // the other values were skipped above
+			}
+			ans, merr := e.model.Ask(Lst(Sym("verify"), Bool(false), Bool(false), Sym("none"), Bool(false), verif, Sym(mt), Str(answer),
+				Bool(false), LstOf(outsx), Str(gen), Str(""), LstOf(nil)).String())
 			r.Validated++
 			if merr != nil || ans != class {
 				r.Violate(Violation{Kind: "correspondence", Key: "verify-model-differs:" + class + "-vs-" + ans, Detail: "a question file of the repository: Verify and the model disagree", Input: input, Impl: class, Model: ans})
@@ -1496,7 +1555,6 @@ func c20Replay(cfg Config, r *Result, model *c20Model, dir string) {
 		mode.Seal, _ = rec.Input["seal"].(bool)
 		mode.Ignore, _ = rec.Input["ignore"].(bool)
 		content := str("markdown")
-		mode.VNone = strings.Contains(content, "\nverification: none\n")
 		answer := str("answer")
 		kp := learn.KeyPair{Public: str("public"), Private: str("private")}
 		extra := map[string]string{}
@@ -1525,6 +1583,8 @@ func c20Replay(cfg Config, r *Result, model *c20Model, dir string) {
 		if equal != nil && marks != nil && (class == "ok") != sameSet(marks, equal) {
 			r.Violate(Violation{Kind: "property", Key: rec.Key, Detail: "replayed: Verify's verdict is not `marks are exactly the matching choices`", Input: rec.Input, Impl: class})
 		}
+	case "history":
+		c20ReplayHistory(r, dir, rec.Input)
 	default:
 		r.Note("replay of kind %q is not supported; re-run the tier with the recorded seed", str("kind"))
 	}
@@ -1546,7 +1606,7 @@ func runC20(cfg Config, r *Result) {
 	defer os.RemoveAll(dir)
 	r.Rule = "A: Decrypt(Encrypt(t)) = t for random texts (0..20000 bytes, any Unicode, stray bytes) under 2 fresh key pairs (1024, 2048 bit); for 3 (quick) / 20 (thorough) sealed values single-byte corruptions of the envelope bytes and of the base64 text (thorough: every position, all 255 other values per envelope byte for all 20 values and per base64 character for the first 6, 8 bit flips per character for the rest; quick: a sample of about 55 envelope positions - header, both ends of the RSA part, the whole GCM tag, 24 random - and about 50 base64 positions, all 255 values at the sampled envelope positions of the first value, otherwise the 8 single-bit flips), every truncation of both, and the other private key: result must be rejection or the original text, and the rejection stage must be the one the model predicts under the ideal functionality; model unframe/frame on the real envelopes and on random garbage. " +
 		"B: random Seal/Unseal/Unseal-with-wrong-key sequences on the real front matter vs the model. " +
-		"C: every non-empty subset of letters a..(one beyond the last choice) x every equal/different assignment for 2..5 choices (multiple choice), every single letter of those and z (single choice), in four styles (question evy / choices inline code; question text / choices evy blocks; question evy / choices text blocks; question text / choices = the 2..6 files of a generated txtar archive linked from one list item, exhaustive up to 3 (quick) / 5 (thorough) files, sampled above; plus parse-error / no-parse-error verification over such archives), through markdown files whose outputs are produced by running evy (a choice of the different class is with probability 1/2 a near miss: output differing from the question's only by trailing newlines - printf, an extra bare print, a string ending in \\n -, by a leading/trailing blank or by case; choice outputs are compared exactly), in plain and sealed / wrong key / no key / ignored / verification-none modes; text answers with white-space variants. " +
+		"C: every non-empty subset of letters a..(one beyond the last choice) x every equal/different assignment for 2..5 choices (multiple choice), every single letter of those and z (single choice), in four styles (question evy / choices inline code; question text / choices evy blocks; question evy / choices text blocks; question text / choices = the 2..6 files of a generated txtar archive linked from one list item, exhaustive up to 3 (quick) / 5 (thorough) files, sampled above; plus parse-error / no-parse-error verification over such archives), through markdown files whose outputs are produced by running evy (a choice of the different class is with probability 1/2 a near miss: output differing from the question's only by trailing newlines - printf, an extra bare print, a string ending in \\n -, by a leading/trailing blank or by case; choice outputs are compared exactly), in plain and sealed / wrong key / no key / ignored modes, with the verification field absent, spelled out as match (every plain case is run in both spellings), none, parse-error, no-parse-error, and 13 undocumented values that must be rejected at load time; text answers with white-space variants. D: histories - 40 (quick) / 400 (thorough) exercise directories of 3-4 program files (print a word, draw a circle; some print the same and draw differently, some the reverse) with 2-5 questions over the same files asking for text output or for the picture (evy:text / evy:svg / evy:source links, result type inferred), right and wrong marks, verified in one process in every order (at most 6 / 30 orders per directory), some questions twice: every verdict against the oracle, the model, and - for a sample and for every disagreement - the verdict of the same file verified alone in a fresh process. " +
 		"non-trivial = non-empty text (A), >= 2 operations (B), every question (C); distinct = distinct canonical case"
 	if cfg.Replay != "" {
 		c20Replay(cfg, r, model, dir)
@@ -1570,6 +1630,9 @@ func runC20(cfg Config, r *Result) {
 	env := &c20Env{cfg: cfg, r: r, model: model, keys: keys, dir: dir}
 	c20Verification(env)
 	c20RepoQuestions(env)
+	t3 := time.Now()
+	c20Histories(env)
+	r.Note("wall: histories %.1fs", time.Since(t3).Seconds())
 	r.Note("wall: envelope %.1fs, front matter %.1fs, verification %.1fs", t1.Sub(t0).Seconds(), t2.Sub(t1).Seconds(), time.Since(t2).Seconds())
 	r.Exhaustive = false
 	r.Note("keys are generated with crypto/rand and Encrypt draws its session key from crypto/rand: the sealed values differ from run to run even with the same VERIF_SEED; every violation's replay input carries the key material and the exact sealed string")
